@@ -544,7 +544,9 @@ pub struct RDetail {
 
 pub const UTF8_LABELS: [&str; 3] = ["utf-8", "utf8", "unicode-1-1-utf-8"];
 /// Labels that are certainly not WHATWG encoding labels.
-pub const BOGUS_CHARSETS: [&str; 8] = ["x-no-such-charset", "utf-9", "klingon", "", "\"utf-8\"", "utf_8_", "\"", "'"];
+/// (a quoted known label such as "utf-8" is deliberately *not* here: whether quotes are stripped is
+/// not decided by the statements)
+pub const BOGUS_CHARSETS: [&str; 7] = ["x-no-such-charset", "utf-9", "klingon", "", "utf_8_", "\"", "'"];
 
 fn latin1(b: &[u8]) -> String {
     b.iter().map(|c| *c as char).collect()
